@@ -162,11 +162,36 @@ Theorem C02_hex_payload_roundtrip :
 Proof. exact bytes_body_hex. Qed.
 Print Assumptions C02_hex_payload_roundtrip.
 
-(* Custom type numbers: the decimal text of every type below 2^64 is parsed back (parseSmallUint). *)
+(* Custom type numbers: the decimal text of every type below 2^64 is parsed back (parseSmallUint, which is
+   ParseUint in base 10 since fix 601f9e0 of /repo; base 0 before). *)
 Theorem C02_custom_type_roundtrip :
-  forall ct, ct < 2 ^ 64 -> CteLit.go_parse_uint (CteEnc.dec ct) 0 64 = Some ct.
+  forall ct, ct < 2 ^ 64 -> CteLit.go_parse_uint (CteEnc.dec ct) 10 64 = Some ct.
 Proof. exact parse_custom_type. Qed.
 Print Assumptions C02_custom_type_roundtrip.
+
+(* ... and every run of decimal digits is read as its decimal value, leading zeros or not: @010[..] is custom type
+   10 and @08[..] custom type 8 (before the fix: 8, and an error). *)
+Theorem C02_custom_type_code_is_decimal :
+  forall ds, ds <> [] -> forallb is_dec ds = true ->
+  CteLit.go_parse_uint ds 10 64 = if dval ds <? 2 ^ 64 then Some (dval ds) else None.
+Proof. exact parse_custom_digits. Qed.
+Print Assumptions C02_custom_type_code_is_decimal.
+
+(* Code point escapes (fix 9d7e9c8 of /repo): inside a quoted string the escape written with the hex digits of r
+   is read as the UTF-8 text of r when r is a Unicode scalar value and makes the string unreadable otherwise
+   (surrogates and values above U+10FFFF were read as U+FFFD before the fix). *)
+Theorem C02_codepoint_escape :
+  forall r f idx rest acc, r < 2 ^ 32 ->
+  lex_str (S f) idx (92 :: 91 :: CteEnc.to_digits 16 r ++ 93 :: rest) acc =
+  if CteLit.valid_scalar r then lex_str f idx rest (acc ++ CteLit.utf8_enc r) else None.
+Proof. exact hex_escape_lex. Qed.
+Print Assumptions C02_codepoint_escape.
+
+Theorem C02_codepoint_escape_not_scalar_rejected :
+  forall r f idx rest acc, r < 2 ^ 32 -> ~ scalar r ->
+  lex_str (S f) idx (92 :: 91 :: CteEnc.to_digits 16 r ++ 93 :: rest) acc = None.
+Proof. exact hex_escape_not_scalar. Qed.
+Print Assumptions C02_codepoint_escape_not_scalar_rejected.
 
 (* Integer array elements, all eight element types: the text fmt writes for an element with bit pattern x in
    the decimal format is accepted by the element lexer rule and parsed back to the little-endian bytes of x. *)
@@ -394,6 +419,19 @@ Example C02_example_bit_array :
   abytes (ABitArr [true; false; true; true; false; false; false; false; true; true]) = CteEnc.s2b "@b[1011000011]"%string /\
   aevent (ABitArr [true; false; true; true; false; false; false; false; true; true]) = EArray AT_Bit 10 [13; 3].
 Proof. vm_compute. split; reflexivity. Qed.
+
+(* the reader after fixes 601f9e0, 6b24587 and 9d7e9c8 of /repo: decimal integers with leading zeros (values, implicit-base
+   array elements, custom type codes) and code point escapes that are not scalar values *)
+Example C02_example_repaired_reader :
+  map (fun t => cte_read (CteEnc.s2b t))
+      ["c0 010"; "c0 -010"; "c0 08"; "c0 0_8"; "c0 0o10"; "c0 @i8[010]"; "c0 @u32[0008]"; "c0 @u8[0_10]"; "c0 @010[01]"]%string =
+  [Some (document [EInt 10]); Some (document [EInt (-10)]); Some (document [EInt 8]); Some (document [EInt 8]);
+   Some (document [EInt 8]); Some (document [EArray AT_Int8 1 [10]]); Some (document [EArray AT_Uint32 1 [8; 0; 0; 0]]);
+   Some (document [EArray AT_Uint8 1 [10]]); Some (document [ECustomBin 10 [1]])] /\
+  cte_read [99; 48; 32; 34; 92; 91; 100; 56; 48; 48; 93; 34] = None /\              (* c0 "\[d800]" *)
+  cte_read [99; 48; 32; 34; 92; 91; 49; 49; 48; 48; 48; 48; 93; 34] = None /\      (* c0 "\[110000]" *)
+  cte_read [99; 48; 32; 34; 92; 91; 100; 55; 102; 102; 93; 34] = Some (document [EArray AT_String 3 [237; 159; 191]]).  (* c0 "\[d7ff]" *)
+Proof. vm_compute. repeat split; reflexivity. Qed.
 
 Example C02_example_string :
   utf8_valid [107; 195; 169; 10; 34; 226; 130; 172] = true /\
